@@ -150,6 +150,7 @@ def velem(os_, k):
 def enum_vector(big):
     ops = []
     cfgs = [(os_, opt | ts, cap) for os_ in (1, 3) for opt in (8, 4, 2) for ts in (0, 1) for cap in (0, 2)]
+    cfgs += [(2, opt | ts, cap) for opt in (6, 12, 10, 14, 0) for ts in (0, 1) for cap in (0, 1)]     # several policy bits / none
     if big:
         cfgs += [(8, opt | ts, cap) for opt in (8, 4, 2) for ts in (0, 1) for cap in (1, 5)]
     for os_, opt, cap in cfgs:
@@ -207,6 +208,8 @@ def rand_list(rng, length, pfault):
                 maybe_arm(rng, h, pfault)
                 h.append("next %d" % (rng.random() < 0.8))
             continue
+        if rng.random() < 0.02:
+            h.append("inv")          # every documented-invalid call: nothing may change, nothing may leak
         maybe_arm(rng, h, pfault)
         if r < 0.45:
             h.append(rng.choice(["addfirst " + e, "addlast " + e, "addat %d %s" % (idx, e)])); n += 1
@@ -230,6 +233,8 @@ def rand_qs(rng, length, pfault):
     flavour = rng.choice(["ints", "strs"])
     h = ["new %s %d" % (kind, rng.randrange(2))]
     while len(h) < length:
+        if rng.random() < 0.02:
+            h.append("inv")
         maybe_arm(rng, h, pfault)
         r = rng.random()
         if flavour == "ints":
@@ -252,6 +257,8 @@ def rand_qs(rng, length, pfault):
 def rand_grow(rng, length, pfault):
     h = ["new grow %d" % rng.randrange(2)]
     while len(h) < length:
+        if rng.random() < 0.02:
+            h.append("inv")
         maybe_arm(rng, h, pfault)
         r = rng.random()
         if r < 0.6:
@@ -266,10 +273,12 @@ def rand_grow(rng, length, pfault):
 
 def rand_vector(rng, length, pfault):
     os_ = rng.choice([1, 2, 3, 8, 17])
-    opt = rng.choice([0, 8, 4, 2, 6]) | rng.randrange(2)
+    opt = rng.randrange(16)          # every combination of the documented option bits
     h = ["new %d %d %d" % (rng.choice([0, 0, 1, 2, 5]), os_, opt)]
     n = 0
     while len(h) < length:
+        if rng.random() < 0.02:
+            h.append("inv")
         maybe_arm(rng, h, pfault)
         idx = rng.randrange(-n - 2, n + 3)
         e = hexs(bytes(rng.choice([0, 0, 255, rng.randrange(256)]) for _ in range(os_)))
